@@ -201,44 +201,155 @@ def _alignment(prog, rep, factories):
 
 
 # ------------------------------------------------------------------------------------------------ R03.2 / R03.3
-def _is_full_guarded(cl, fi):
-    """Is the closure defined only when the full-vector test holds: under `if <full test>` (directly, or through a
-    local boolean bound once to it), or after an earlier `if not <full test>: return ...`."""
-    assigns = local_assignments(fi.node)
+def _full_formula(test, fn, vparam, prog, depth=0):
+    """(True | False | None, why) for a boolean expression evaluated in function node ``fn`` whose parameter ``vparam`` is
+    the caller's ordered variable list: True when it is (equivalent to) `len(I) == N and I == arange(N) element-wise` with
+    N = len(vparam) for one position array I; False when it is recognisably only a part of that (positions 0..k-1 without
+    the length, the length without the order, equal end points); None otherwise.  Followed through locals, bool(..), and a
+    helper of the package that returns it inside a tuple."""
+    assigns = local_assignments(fn)
 
-    def is_full_test(test):
-        t = src(test)
-        if _is_full_text(t):
+    def one(name, at):
+        vals = [x for x in assigns.get(name, []) if isinstance(x, ast.AST)]
+        if len(vals) == 1:
+            return vals[0]
+        if len(vals) > 1:
+            from ..astutil import reaching_value
+            return reaching_value(at, name)
+        return None
+
+    def is_N(e):
+        """e denotes len(vparam)"""
+        if isinstance(e, ast.Call) and dotted(e.func) == "len" and e.args and src(e.args[0]) == vparam:
             return True
-        if isinstance(test, ast.Name):
-            vals = [src(v) for v in assigns.get(test.id, []) if isinstance(v, ast.AST)]
-            if vals and all(_is_full_text(v) for v in vals):
-                return True
-            # `indices, is_full = helper(...)`: the flag is the matching element of the helper's returned tuple
-            for st in walk_local(fi.node):
-                if isinstance(st, ast.Assign) and isinstance(st.targets[0], ast.Tuple) and isinstance(st.value, ast.Call) and isinstance(st.value.func, ast.Name):
-                    names = [src(e) for e in st.targets[0].elts]
-                    if test.id not in names:
-                        continue
-                    pos = names.index(test.id)
-                    helpers = [n for n in ast.walk(fi.node) if isinstance(n, ast.FunctionDef) and n.name == st.value.func.id and n is not fi.node]
-                    for h in helpers:
-                        ha = local_assignments(h)
-                        oks = []
-                        for r in [x for x in walk_local(h) if isinstance(x, ast.Return) and isinstance(x.value, ast.Tuple) and len(x.value.elts) == len(names)]:
-                            e = r.value.elts[pos]
-                            texts = [src(e)] if not isinstance(e, ast.Name) else [src(v) for v in ha.get(e.id, []) if isinstance(v, ast.AST)]
-                            oks.append(bool(texts) and all(_is_full_text(t) for t in texts))
-                        if oks and all(oks):
-                            return True
+        if isinstance(e, ast.Name):
+            v = one(e.id, test)
+            return v is not None and is_N(v)
         return False
 
-    for test, pol in dominating_guards(cl) + preceding_exit_guards(cl):
-        if pol and is_full_test(test):
-            return True
-        if not pol and isinstance(test, ast.UnaryOp) and isinstance(test.op, ast.Not) and is_full_test(test.operand):
-            return True
-    return False
+    def arange_of(e):
+        """the argument of np.arange(..) / range(..)"""
+        if isinstance(e, ast.Call) and (dotted(e.func) or "") in ("np.arange", "numpy.arange", "range") and len(e.args) == 1:
+            return e.args[0]
+        if isinstance(e, ast.Call) and (dotted(e.func) or "") in ("list", "np.array", "np.asarray") and e.args:
+            return arange_of(e.args[0])
+        return None
+
+    t = test
+    while isinstance(t, ast.Call) and dotted(t.func) == "bool" and len(t.args) == 1:
+        t = t.args[0]
+    if isinstance(t, ast.Name) and depth < 4:
+        # tuple-unpacked from a helper call?
+        for st in walk_local(fn):
+            if isinstance(st, ast.Assign) and isinstance(st.targets[0], (ast.Tuple, ast.List)) and isinstance(st.value, ast.Call) and isinstance(st.value.func, ast.Name):
+                names = [src(e) for e in st.targets[0].elts]
+                if t.id in names:
+                    pos = names.index(t.id)
+                    call = st.value
+                    cands = [n for n in ast.walk(fn) if isinstance(n, ast.FunctionDef) and n.name == call.func.id and n is not fn]
+                    cands += [f.node for f in prog.functions.values() if f.parent is None and f.name == call.func.id and f.module.name.startswith("optyx.core")]
+                    if not cands:
+                        return None, f"flag `{t.id}` comes from {call.func.id}(..), which is not resolved"
+                    h = cands[0]
+                    hp = [a.arg for a in h.args.args]
+                    if call.keywords or len(hp) != len(call.args):
+                        return None, f"{call.func.id}(..): arguments not matched"
+                    hv = next((p_ for p_, a_ in zip(hp, call.args) if src(a_) == vparam), None)
+                    if hv is None:
+                        return None, f"{call.func.id}(..) is not given the variable list `{vparam}`"
+                    out = []
+                    for r in [x for x in walk_local(h) if isinstance(x, ast.Return) and x.value is not None]:
+                        if not (isinstance(r.value, ast.Tuple) and len(r.value.elts) == len(names)):
+                            return None, f"{call.func.id}(..) does not return a {len(names)}-tuple on every path"
+                        out.append(_full_formula(r.value.elts[pos], h, hv, prog, depth + 1))
+                    if not out:
+                        return None, f"{call.func.id}(..) has no return"
+                    for want in (False, None):
+                        for o in out:
+                            if o[0] is want:
+                                return o[0], f"in {call.func.id}: {o[1]}"
+                    return out[0]
+        v = one(t.id, test)
+        if v is not None:
+            return _full_formula(v, fn, vparam, prog, depth + 1)
+        params = [a.arg for a in fn.args.args]
+        if t.id in params:
+            return None, f"`{t.id}` is a parameter of {fn.name}"
+        return None, f"`{t.id}` not resolved"
+    parts = t.values if isinstance(t, ast.BoolOp) and isinstance(t.op, ast.And) else [t]
+    has_len = None       # name of I in `len(I) == N`
+    order = None         # (I, bound) in array_equal(I, arange(bound))
+    ends = False
+    for c in parts:
+        if isinstance(c, ast.Compare) and len(c.ops) == 1 and isinstance(c.ops[0], ast.Eq):
+            l, r = c.left, c.comparators[0]
+            for x, y in ((l, r), (r, l)):
+                if isinstance(x, ast.Call) and dotted(x.func) == "len" and x.args and is_N(y):
+                    has_len = src(x.args[0])
+            if any(isinstance(z, ast.Subscript) and isinstance(z.slice, (ast.Constant, ast.UnaryOp)) for z in (l, r)):
+                ends = True
+        ae = None
+        if isinstance(c, ast.Call) and (dotted(c.func) or "") in ("np.array_equal", "numpy.array_equal") and len(c.args) == 2:
+            ae = c.args
+        elif isinstance(c, ast.Call) and isinstance(c.func, ast.Attribute) and c.func.attr == "all" and isinstance(c.func.value, ast.Compare) and isinstance(c.func.value.ops[0], ast.Eq):
+            ae = [c.func.value.left, c.func.value.comparators[0]]
+        elif isinstance(c, ast.Call) and (dotted(c.func) or "") in ("np.all", "all") and c.args and isinstance(c.args[0], ast.Compare) and isinstance(c.args[0].ops[0], ast.Eq):
+            ae = [c.args[0].left, c.args[0].comparators[0]]
+        if ae is not None:
+            for x, y in ((ae[0], ae[1]), (ae[1], ae[0])):
+                bnd = arange_of(y)
+                if bnd is not None:
+                    order = (src(x), bnd)
+    if order is not None:
+        I, bnd = order
+        if is_N(bnd):
+            if has_len == I:
+                return True, "len(I) == n and I == arange(n)"
+            # I == arange(n) element-wise already forces len(I) == n (array_equal compares shapes)
+            return True, "I == arange(n) element-wise (array_equal compares shapes too)"
+        if isinstance(bnd, ast.Call) and dotted(bnd.func) == "len" and bnd.args and src(bnd.args[0]) == I:
+            if has_len == I:
+                return True, "len(I) == n and I == arange(len(I))"
+            return False, f"`{src(t)[:70]}` only says that the positions are 0..k-1 (a leading block of the variable list), not that the vector IS the variable list: with further variables after it the dense path writes their columns too"
+        return None, f"order test against arange({src(bnd)[:20]})"
+    if has_len is not None and len(parts) == 1:
+        return False, f"`{src(t)[:60]}` compares lengths only: a permuted variable list of the same length takes the dense path"
+    if ends and order is None:
+        return False, f"`{src(t)[:70]}` compares end points / extents only: equal end points do not imply that every position matches"
+    return None, f"`{src(t)[:60]}` is not a full-vector test this rule reads"
+
+
+def _is_full_guarded(cl, fi, prog=None):
+    """(True | False | None, why): is the closure defined only when the full-vector test holds -- under `if <test>`
+    (directly, through a local flag, a flag returned by a helper), or after an earlier `if not <test>: return ...`?
+    None when a guard exists but cannot be read (a flag parameter, an unknown predicate)."""
+    params = [a.arg for a in fi.node.args.args]
+    vparam = params[1] if len(params) > 1 else None
+    guards = dominating_guards(cl) + preceding_exit_guards(cl)
+    verdicts = []
+    for test, pol in guards:
+        t = test
+        if not pol and isinstance(t, ast.UnaryOp) and isinstance(t.op, ast.Not):
+            t, pol = t.operand, True
+        if not pol:
+            continue
+        v, why = _full_formula(t, fi.node, vparam, prog)
+        if v is True:
+            return True, why
+        verdicts.append((v, why, t))
+    # guards that mention a position array / a flag are candidates for "the" full test
+    cand = [(v, why) for v, why, t in verdicts if v is False or any(isinstance(x, ast.Name) and ("full" in x.id or "block" in x.id or "dense" in x.id or "indices" in x.id or "contig" in x.id) for x in ast.walk(t))]
+    for v, why in cand:
+        if v is False:
+            return False, why
+    if cand:
+        return None, cand[0][1]
+    if any(v is None for v, _w, _t in verdicts) and verdicts:
+        # some guard that this rule cannot read stands in front of the closure
+        unread = [w for v, w, t in verdicts if v is None and not (isinstance(t, ast.Compare) and any(isinstance(x, ast.Constant) for x in ast.walk(t)))]
+        if unread:
+            return None, unread[0]
+    return False, "no full-vector test stands in front of it"
 
 
 def _closures(prog, rep, factories, mode="grad", r_guard="R03.2", r_term="R03.3"):
@@ -261,8 +372,11 @@ def _closures(prog, rep, factories, mode="grad", r_guard="R03.2", r_term="R03.3"
             if any(c for c in calls(cl, local=False) if isinstance(c.func, ast.Name) and c.func.id not in ("_sanitize_derivatives", "float", "len", "range", "int", "min", "max")) or any(isinstance(c.func, ast.Subscript) for c in calls(cl, local=False)):
                 continue  # general-path closure (calls compiled element functions)
             if bare:
-                ok = _is_full_guarded(cl, fi)
-                rep.ob(r_guard, construct, ok, "uses x without gathering, under the guard `indices == arange(n)`" if ok else "uses x directly (no x[indices]) but is not guarded by `len(indices) == n and indices == arange(n)`: with a permuted or larger variable list the derivative lands in the wrong columns", loc=loc, detail="dense-needs-guard")
+                ok, gwhy = _is_full_guarded(cl, fi, prog)
+                if ok is None:
+                    rep.undecided(f"{construct}: uses x without gathering; whether the full-vector test guards it is not readable ({gwhy})")
+                else:
+                    rep.ob(r_guard, construct, ok, f"uses x without gathering, under the full-vector guard ({gwhy})" if ok else f"uses x directly (no x[indices]) and {gwhy}: with a permuted or larger variable list the derivative lands in the wrong columns", loc=loc, detail="dense-needs-guard")
             elif gathered:
                 idx = {src(n._parent.slice) for n in gathered}
                 stores = [n for n in walk_local(cl) if isinstance(n, ast.Assign) and isinstance(n.targets[0], ast.Subscript) and isinstance(n.targets[0].value, ast.Name)]
@@ -298,8 +412,11 @@ def _closures(prog, rep, factories, mode="grad", r_guard="R03.2", r_term="R03.3"
                 nm = src(rets[0]) if rets else "?"
                 origin = [src(v) for v in local_assignments(fi.node).get(nm, []) if isinstance(v, ast.AST)]
                 if any("ones" in o for o in origin):
-                    ok = _is_full_guarded(cl, fi)
-                    rep.ob(r_guard, construct, ok, "constant row of ones, under the full-vector guard" if ok else "returns ones(n) for every variable without the full-vector guard", loc=loc, detail="dense-needs-guard")
+                    ok, gwhy = _is_full_guarded(cl, fi, prog)
+                    if ok is None:
+                        rep.undecided(f"{construct}: constant row of ones; whether the full-vector test guards it is not readable ({gwhy})")
+                    else:
+                        rep.ob(r_guard, construct, ok, "constant row of ones, under the full-vector guard" if ok else f"returns ones(n) for every variable and {gwhy}", loc=loc, detail="dense-needs-guard")
                 elif any("zeros" in o for o in origin) and not any("diag" in o for o in origin):
                     rep.ob(r_guard, construct, True, "zero matrix is correct for every variable list", loc=loc, detail="constant-zero")
                 else:
@@ -578,6 +695,11 @@ def _row_by_scenario(prog, rep, cname, m):
                 continue
             got = sorted({e.replace(" ", "") for r in rows for e in r})
             ok = len(got) == 1 and all(len(r) == 1 for r in rows) and got[0] in [x.replace(" ", "") for x in want]
+            if not ok:
+                fr = _foreign_tokens(got, [x for ws in table.values() for x in ws])
+                if fr:
+                    rep.undecided(f"{cname}.jacobian_row: the entry for a variable that is {label} is `{got[0][:60]}`, which the row walker could not reduce ({fr[0]})")
+                    continue
             rep.ob("R03.4", f"{cname}.jacobian_row", ok,
                    f"variable {label}: entry {want[0]}" if ok else
                    f"for a variable that is {label} the row entry is `{got[0][:90]}`{' (and others)' if len(got) > 1 else ''}; the derivative is `{want[0]}`",
@@ -602,6 +724,9 @@ def _row_by_scenario(prog, rep, cname, m):
             rep.undecided("DotProduct.jacobian_row: no row entry found in the x.x case")
             continue
         ok = got in ([want], [want.replace("Constant(2.0),V", "V,Constant(2.0)")])
+        if not ok and _foreign_tokens(got, [want, "self.left._variables", "self.right._variables"]):
+            rep.undecided(f"DotProduct.jacobian_row: x.x case entry `{got[0][:60]}` not reduced by the row walker")
+            continue
         rep.ob("R03.4", "DotProduct.jacobian_row", ok, f"x.x (identical object), variable {'in x' if mem else 'not in x'}: entry {want}" if ok else f"x.x case: a variable {'of x' if mem else 'outside x'} gets the entry `{got[0][:70]}`; the derivative is {want}", loc=loc, detail=f"same-vector:{'member' if mem else 'absent'}")
     exp = {
         (True, True): ["BinaryOp(self.right._variables[POS_0],self.left._variables[POS_1],'+')", "BinaryOp(self.left._variables[POS_1],self.right._variables[POS_0],'+')"],
@@ -618,10 +743,26 @@ def _row_by_scenario(prog, rep, cname, m):
             rep.ob("R03.4", "DotProduct.jacobian_row", False, f"no entry is appended when in-left={inL}, in-right={inR}: the row gets shorter than `variables`", loc=loc, detail=f"partition:{'L' if inL else '-'}{'R' if inR else '-'}") if rows == [] and not plain else rep.undecided(f"DotProduct.jacobian_row: no row entry found for in-left={inL}, in-right={inR}")
             continue
         ok = len(got) == 1 and got[0] in want
+        import re as _re
+        foreign = [t_ for e_ in got for t_ in _re.findall(r"[A-Za-z_][\w.]*", e_) if t_ not in ("BinaryOp", "UnaryOp", "Constant", "self.left._variables", "self.right._variables", "POS_0", "POS_1", "V")]
+        if not ok and foreign:
+            # the entry still contains something the row walker did not resolve (a lookup written another way): not a verdict
+            rep.undecided(f"DotProduct.jacobian_row: the entry for in-left={inL}, in-right={inR} is `{got[0][:60]}`, which the row walker could not reduce ({foreign[0]})")
+            continue
         rep.ob("R03.4", "DotProduct.jacobian_row", ok,
                f"in-left={inL}, in-right={inR}: entry {want[0]}" if ok else
                f"a variable with in-left={inL}, in-right={inR} gets the entry `{got[0][:70]}`; the derivative is {want[0]}" + (": the contribution of the other operand is dropped (x[0:2].dot(x[1:3]) gives [2,3,2] instead of [2,4,2])" if inL and inR else ""),
                loc=loc, detail=f"partition:{'L' if inL else '-'}{'R' if inR else '-'}")
+
+
+def _foreign_tokens(got, wants):
+    """identifiers in the produced entries that occur in none of the reference entries: the walk did not reduce them"""
+    import re as _re
+    base = {"BinaryOp", "UnaryOp", "Constant", "V", "float", "POS", "POS_0", "POS_1", "ROW", "ELEM", "MAP"}
+    vocab = set(base)
+    for w_ in wants:
+        vocab |= set(_re.findall(r"[A-Za-z_][\w.]*", w_))
+    return [t_ for e_ in got for t_ in _re.findall(r"[A-Za-z_][\w.]*", e_) if t_ not in vocab and not _re.fullmatch(r"\d+(\.\d+)?", t_)]
 
 
 def _elementwise_row(prog, rep, cname, m):
@@ -672,6 +813,9 @@ def _elementwise_row(prog, rep, cname, m):
                 continue
             if not member:
                 ok = [g.replace(" ", "") for g in got] == ["Constant(0.0)"]
+                if not ok and _foreign_tokens(got, ["Constant(0.0)", "self.vector._variables"]):
+                    rep.undecided(f"{cname}.jacobian_row[{key}]: non-member entry `{got[0][:60]}` not reduced by the row walker")
+                    continue
                 rep.ob("R03.4", f"{cname}.jacobian_row[{key}]", ok, "non-member: 0" if ok else f"a variable that is not in the vector gets the entry `{got[0][:60]}` instead of 0", loc=m.loc, detail="absent")
                 continue
             if len(got) != 1:
@@ -776,9 +920,16 @@ def _binop_row(rep, m, prog=None):
                     allowed, law = [f"MAP({r_},{e_})" for e_ in ents], "d(c * f) = c * df"
                 if allowed is None:
                     why = {("-", "left"): "d(c - f) = -df, not df"}.get((op, side), f"no derivative law lets the row of f {op} g be read off one operand" + ("" if side else " when neither operand is a Constant"))
+                    if _foreign_tokens(got, [row("left"), row("right"), "self.left.value", "self.right.value", "ELEM.value", "MAP", "None"]):
+                        rep.undecided(f"{construct}: answers `{got[0][:70]}`, which the symbolic walk could not reduce")
+                        continue
                     rep.ob("R03.4", construct, False, f"answers `{got[0][:70]}` for {op!r} with const={side}: {why}", loc=loc, detail="law")
                     continue
                 ok = len(got) == 1 and got[0] in [a_.replace(" ", "") for a_ in allowed]
+                vocab_ref = allowed + [row("left"), row("right"), "self.left.value", "self.right.value", "ELEM.value", "None"]
+                if not ok and _foreign_tokens(got, vocab_ref):
+                    rep.undecided(f"{construct}: answers `{got[0][:70]}`, which the symbolic walk could not reduce ({_foreign_tokens(got, vocab_ref)[0]})")
+                    continue
                 rep.ob("R03.4", construct, ok, law if ok else f"answers `{got[0][:80]}`; the law {law} requires `{allowed[0]}`", loc=loc, detail=f"law:{'const-entry' if elem_const else 'entry'}")
     rep.saw("BinaryOp.jacobian_row scenarios walked", n)
 
